@@ -122,36 +122,67 @@ def chunk_headers(ctx, rule='chunk-headers'):
     if b is None:
         r.lost(rule, 'Chunker::encode', 'not found'); return
     F = ctx.facts(b)
-    news = [c for c in b.calls() if c.callee.endswith('MessageChunk::new')]
-    if len(news) < 2:
-        r.lost(rule, 'MessageChunk::new', 'expected the multi-chunk and the single-chunk construction, found %d' % len(news)); return
+    # constructions in encode itself (for loop) and in closures handed to an iterator adapter (enumerate().map(|(i, chunk)| ..))
+    def env_of(cb):
+        """operands of the closure aggregate in encode: what each captured field stands for, in encode's terms"""
+        for bi, blk in enumerate(b.blocks):
+            for st in blk['s']:
+                if st[0] == '=' and st[2][0] == 'agg' and st[2][1] == 'closure' and st[2][2] == cb.path:
+                    return [F.sym_operand(o) for o in st[2][4]]
+        return None
+    def lifter(env):
+        def lift(sy):
+            if not isinstance(sy, tuple):
+                return sy
+            if sy and sy[0] == 'place' and sy[1] == 1 and len(sy[2]) >= 2 and sy[2][0] == '*' and sy[2][1].startswith('.') and sy[2][1][1:].isdigit():
+                k = int(sy[2][1][1:])
+                if k < len(env):
+                    return F._project(env[k], sy[2][2:])
+            return tuple(lift(x) for x in sy)
+        return lift
+    ctxs = [(b, F, c, (lambda x: x), None) for c in b.calls() if c.callee.endswith('MessageChunk::new')]
+    for cb in db.find_bodies(r'^core::comms::chunker::Chunker::encode(::\{closure#\d+\})+$'):
+        cs = [c for c in cb.calls() if c.callee.endswith('MessageChunk::new')]
+        if cs:
+            env = env_of(cb)
+            if env is None:
+                r.lost(rule, 'closure-env', 'construction of %s not found in encode' % cb.path); return
+            for c in cs:
+                ctxs.append((cb, ctx.facts(cb), c, lifter(env), ('place', 2, ())))
+    if len(ctxs) < 2:
+        r.lost(rule, 'MessageChunk::new', 'expected the multi-chunk and the single-chunk construction, found %d' % len(ctxs)); return
     seq_p = b.local_by_name('sequence_number'); rid_p = b.local_by_name('request_id'); mcs_p = b.local_by_name('max_chunk_size')
     if not (seq_p and rid_p and mcs_p):
         r.lost(rule, 'params', 'sequence_number / request_id / max_chunk_size parameters not found'); return
     seq_p, rid_p, mcs_p = ('place', seq_p[0], ()), ('place', rid_p[0], ()), ('place', mcs_p[0], ())
     n = 0
-    for c in news:
-        a = [F.sym_operand(x) for x in c.args]
-        item = _find(a[0], lambda s: s[0] == 'proj' and s[2] == '@Some' and s[1][0] == 'call' and s[1][1].endswith('Iterator::next'))
-        looped = item is not None
+    for xb, xF, c, lift, tup in ctxs:
+        a = [lift(xF.sym_operand(x)) for x in c.args]
+        if tup is None:
+            item = _find(a[0], lambda s: s[0] == 'proj' and s[2] == '@Some' and s[1][0] == 'call' and s[1][1].endswith('Iterator::next'))
+            looped = item is not None
+            idx = ('proj', ('proj', item, '.0'), '.0') if looped else None
+            bodysym = ('proj', ('proj', item, '.0'), '.1') if looped else None
+        else:
+            looped = True
+            idx = ('place', 2, ('.0',)); bodysym = ('place', 2, ('.1', '*'))
         tag = 'multi' if looped else 'single'
         n += 1
         # request id
         if a[1] == rid_p:
             r.ok(rule, tag + ':request-id', 'chunk carries the request_id argument', loc=c.loc)
         else:
-            r.fail(rule, tag + ':request-id', 'chunk request id is %s, not the request_id of the message' % fmt_sym(b, a[1])[:80], loc=c.loc)
+            r.fail(rule, tag + ':request-id', 'chunk request id is %s, not the request_id of the message' % fmt_sym(xb, a[1])[:80], loc=c.loc)
         if not looped:
             if a[0] == seq_p:
                 r.ok(rule, tag + ':sequence', 'single chunk uses the first sequence number', loc=c.loc)
             else:
-                r.fail(rule, tag + ':sequence', 'single chunk sequence number is %s' % fmt_sym(b, a[0])[:80], loc=c.loc)
-            if 'Final' in fmt_sym(b, a[3]) and 'Intermediate' not in fmt_sym(b, a[3]):
+                r.fail(rule, tag + ':sequence', 'single chunk sequence number is %s' % fmt_sym(xb, a[0])[:80], loc=c.loc)
+            if 'Final' in fmt_sym(xb, a[3]) and 'Intermediate' not in fmt_sym(xb, a[3]):
                 r.ok(rule, tag + ':final', 'the only chunk is Final', loc=c.loc)
             else:
-                r.fail(rule, tag + ':final', 'the only chunk of a message is not marked Final (%s)' % fmt_sym(b, a[3])[:60], loc=c.loc)
+                r.fail(rule, tag + ':final', 'the only chunk of a message is not marked Final (%s)' % fmt_sym(xb, a[3])[:60], loc=c.loc)
             continue
-        idx = ('proj', ('proj', item, '.0'), '.0')
         # sequence number = sequence_number + idx as u32
         s0 = a[0]
         if s0[0] == 'proj' and s0[2] == '.0':
@@ -162,19 +193,26 @@ def chunk_headers(ctx, rule='chunk-headers'):
         if okseq:
             r.ok(rule, tag + ':sequence', 'sequence number = sequence_number + position of the chunk', loc=c.loc)
         else:
-            r.fail(rule, tag + ':sequence', 'chunk sequence number is %s: not first + position, the numbers are not consecutive' % fmt_sym(b, a[0])[:100], loc=c.loc)
+            r.fail(rule, tag + ':sequence', 'chunk sequence number is %s: not first + position, the numbers are not consecutive' % fmt_sym(xb, a[0])[:100], loc=c.loc)
         # the iterated sequence
         enum = [e for e in b.calls() if e.callee.endswith('Iterator::enumerate')]
         src = F.sym_operand(enum[0].args[0]) if enum else None
         chunks = _find(src, lambda s: s[0] == 'call' and s[1].endswith('slice::chunks')) if src is not None else None
         if chunks is None:
             r.lost(rule, tag + ':source', 'the loop does not iterate enumerate(slice::chunks(..))'); continue
+        if tup is not None:
+            # the closure must be the argument of an adapter applied to that very enumerate(..)
+            maps = [m_ for m_ in b.calls() if re.search(r'Iterator::(map|filter_map|flat_map|try_for_each|for_each|map_while)$', m_.callee) and len(m_.args) == 2
+                    and xb.path in fmt_sym(b, F.sym_operand(m_.args[1]))
+                    and _find(F.sym_operand(m_.args[0]), lambda s: s[0] == 'call' and s[1].endswith('Iterator::enumerate') and _find(s, lambda q: q == chunks) is not None) is not None]
+            if not maps:
+                r.lost(rule, tag + ':source', 'the closure building the chunks is not applied to enumerate(slice::chunks(..))'); continue
         # body = the item of the iteration
         body = a[5]
-        if _find(body, lambda s: s == ('proj', ('proj', item, '.0'), '.1')) is not None:
+        if _find(body, lambda s: s == bodysym) is not None:
             r.ok(rule, tag + ':body', 'chunk body is the slice yielded by the iteration', loc=c.loc)
         else:
-            r.fail(rule, tag + ':body', 'chunk body is %s, not the slice of this iteration' % fmt_sym(b, body)[:80], loc=c.loc)
+            r.fail(rule, tag + ':body', 'chunk body is %s, not the slice of this iteration' % fmt_sym(xb, body)[:80], loc=c.loc)
         # slice size derives from the negotiated size
         size = chunks[2][1] if len(chunks[2]) > 1 else None
         bs = _find(size, lambda s: s[0] == 'call' and s[1].endswith('MessageChunk::body_size_from_message_size')) if size is not None else None
@@ -183,16 +221,16 @@ def chunk_headers(ctx, rule='chunk-headers'):
         else:
             r.fail(rule, tag + ':size', 'the body size the data is cut at does not derive from max_chunk_size: %s' % (fmt_sym(b, size)[:100] if size is not None else '?'), loc=c.loc)
         # final flag
-        fl = a[3]
-        defs = b.defs().get(fl[1], []) if fl[0] == 'place' and not fl[2] else []
+        fl = xF.sym_operand(c.args[3])
+        defs = xb.defs().get(fl[1], []) if fl[0] == 'place' and not fl[2] else []
         finals = [(d[1], d[2]) for d in defs if d[0] == 'stmt' and d[3][0] == 'agg' and d[3][3] == 'Final']
         inter = [(d[1], d[2]) for d in defs if d[0] == 'stmt' and d[3][0] == 'agg' and d[3][3] == 'Intermediate']
         if not finals or not inter or len(finals) + len(inter) != len(defs):
             r.fail(rule, tag + ':final', 'the final flag of a multi-chunk message is not chosen between Final and Intermediate per chunk', loc=c.loc); continue
         def last_test(bb, si, op):
-            for lit, e in F.literals_at(bb, si):
+            for lit, e in xF.literals_at(bb, si):
                 if lit[0] == 'cmp' and lit[1] == op and lit[2] == idx:
-                    rhs = lit[3]
+                    rhs = lift(lit[3])
                     if rhs[0] == 'proj' and rhs[2] == '.0':
                         rhs = rhs[1]
                     if rhs[0] == 'bin' and rhs[1] in ('Sub', 'SubWithOverflow') and F.const_int(rhs[3]) == 1:
